@@ -575,11 +575,11 @@ def _extra_ops(ops, units, slots, second, block, pair):
             for sl in slots:
                 m = menus[(u, sl)]
                 if block:
-                    # same key same spelling, same key other spelling, different keys, with a raising twin, both raising
-                    for i, j in ((0, 0), (0, 3), (0, 1), (0, 2), (1, 2), (0, 4), (4, 4)):
+                    # same key same spelling, same key other spelling, different keys (a / b differ), with a raising twin
+                    for i, j in ((0, 0), (0, 3), (0, 1), (0, 2), (0, 4)):
                         if i < len(m) and j < len(m):
                             out.append(_both_op(m[i], m[j]))
-                for i, j in ((0, 1), (0, 2), (1, 0)):
+                for i, j in ((0, 1), (0, 2)):
                     if i < len(m) and j < len(m) and m[i].key != m[j].key:
                         out.append(_reenter_op(m[i], m[j]))
             if block and len(slots) > 1:
@@ -931,7 +931,10 @@ class AlruRT(Runtime):
     def _store(self, refs, sub, evicted):
         r = refs[sub.unit]
         if sub.key in r:
-            r.move_to_end(sub.key)  # storing an existing key refreshes it
+            # storing an existing key (two overlapping misses of one key) replaces the value and refreshes it; with a
+            # key_fn that ignores a parameter the two values may differ: the one stored last is kept
+            r[sub.key] = (sub.value, sub.shape, sub.text)
+            r.move_to_end(sub.key)
             return
         if len(r) >= self.maxsize:
             evicted.append(r.popitem(last=False))
@@ -973,7 +976,7 @@ class AlruRT(Runtime):
                 for sub, ent in st:
                     if ent is None and not sub.raises:
                         self._store(refs, sub, evicted)
-                sig = tuple([tuple(r.keys()) for r in refs])
+                sig = tuple([tuple([(k, e[0]) for k, e in r.items()]) for r in refs])
                 if all(sig != c[0] for c in cands):
                     cands.append((sig, refs, evicted))
         first = None
